@@ -180,6 +180,15 @@ def cfg_line(cfg):
 def gen_ops(r, cfg):
     n = r.randint(5, 45)
     nc = len(cfg["coins"])
+    if nc and r.random() < 0.08:
+        # directed stream: play-mode switched in the middle of a game, the game ends in the other mode, next game paid
+        big = max(range(nc), key=lambda i: cfg["coins"][i])
+        pre = [["coin", big]] * r.randint(1, 4) + [["service"], ["service"], ["start"]] + [["drain"]] * r.randint(0, 2)
+        pre += [[r.choice(["toggle", "fpon"])]] + [["drain"]] * r.randint(1, 3) + [[r.choice(["toggle", "fpoff"])], ["start"]]
+        tail = []
+        for _ in range(r.randint(3, 10)):
+            tail.append(r.choice([["coin", big], ["coin", big], ["coin", r.randrange(nc)], ["drain"], ["start"]]))
+        return pre + tail
     fill = r.random() < 0.3 and nc > 0         # stream that fills up to the cap
     big = max(range(nc), key=lambda i: cfg["coins"][i]) if nc else 0
     ops = []
